@@ -10,6 +10,7 @@ import DmlcModel.Parse.Fm
 import DmlcModel.Parse.Cuts
 import DmlcModel.Parse.Csv
 import DmlcModel.Parse.Slices
+import DmlcModel.Parse.FillRows
 import DmlcModel.Parse.ConvSimple
 
 namespace DmlcModel.Props.C11
@@ -192,13 +193,90 @@ theorem C11_fillData_slices (mem : Bytes) (size nthread : Nat) (h1 : 1 ≤ nthre
       threadSlice mem size nthread tid = .ok (cutAt mem size nthread tid, cutAt mem size nthread (tid + 1))) :=
   fillData_slices mem size nthread h1 hn hs hr
 
+theorem svm_blockFormat {conv : Conv} {gR gI gQ : Bytes → Res Nat} {gC : Bytes → Res (Nat × Nat)}
+    (hL : conv.LocalWith gR gI gQ gC) (iw mode : Nat) :
+    BlockFormat (fun _ => true) (svmBlock Fixes.repaired conv iw mode) (svmRows Fixes.repaired conv iw mode)
+      (svmRecS gR gI gQ iw mode) :=
+  ⟨svm_lineFormat hL iw mode, fun mem a b t hAt hT _ _ _ hlen => by
+    have hc := codeLines_length t
+    have e1 := svm_block_eq_at hL iw mode hAt hT (by omega)
+    have e2 := svm_block_eq hL iw mode t (by omega)
+    simp only [svmRowsAt] at e1
+    rw [e1, e2]⟩
+
+theorem fm_blockFormat {conv : Conv} {gR gI gQ : Bytes → Res Nat} {gC : Bytes → Res (Nat × Nat)}
+    (hL : conv.LocalWith gR gI gQ gC) (iw mode : Nat) :
+    BlockFormat (fun _ => true) (fmBlock Fixes.repaired conv iw mode) (fmRows Fixes.repaired conv iw mode)
+      (fmRecS gR gI iw mode) :=
+  ⟨fm_lineFormat hL iw mode, fun mem a b t hAt hT _ _ _ hlen => by
+    have hc := codeLines_length t
+    have e1 := fm_block_eq_at hL iw mode hAt hT (by omega)
+    have e2 := fm_block_eq hL iw mode t (by omega)
+    simp only [fmRowsAt] at e1
+    rw [e1, e2]⟩
+
+theorem csv_blockFormat {conv : Conv} {gR gI gQ : Bytes → Res Nat} {gC : Bytes → Res (Nat × Nat)}
+    (hL : conv.LocalWith gR gI gQ gC) (prm : CsvParam) :
+    BlockFormat nonNulB (csvBlock Fixes.repaired conv prm) (csvRows Fixes.repaired conv prm) (csvRecS gC prm) :=
+  ⟨csv_lineFormat hL prm, fun mem a b t hAt hT hr hb hg hlen => by
+    have hn : ∀ x ∈ t, x ≠ 0 := fun x hx => by simpa [nonNulB] using hg x hx
+    have e1 := csv_block_eq_at hL prm hAt hT hr hb hlen hn
+    have e2 := csv_block_eq_at hL prm (At.whole t [0]) (Or.inl (term_whole t)) (by simp) (by omega) hlen hn
+    simp only [csvRowsAt] at e1 e2
+    unfold csvRows csvRowsAt
+    rw [e1, e2]⟩
+
+/-- the text of a chunk is acceptable to parser `f`: csv wants no NUL byte inside -/
+def GoodText (f : Format) (t : Bytes) : Prop :=
+  match f with
+  | .csv _ => ∀ b ∈ t, b ≠ 0
+  | _ => True
+
+/-- **FillData.** For every chunk `t` (non-empty, at position 0 of `mem`, the byte behind it readable) whose end
+is harmless — it ends with an end-of-line byte, as every chunk of an InputSplit does, or a NUL / end-of-line byte
+follows it — every `nthread ≥ 1` and every parser: the rows of the blocks FillData + ParserImpl::Next emit, in
+thread order, are the rows of ParseBlock on the whole chunk (= the rows of its lines parsed alone, by
+`C11_block_is_concat_of_lines_*`).  The slices are the real ones: Gen nstep / sbegin / send + BackFindEndLine. -/
+theorem C11_fillData_rows (f : Format) (conv : Conv) (hL : conv.Local) (mem : Bytes) (size nthread : Nat) (t : Bytes)
+    (hAt : At mem 0 size t) (hT : TermOr mem size t) (hpos : 0 < size) (h1 : 1 ≤ nthread)
+    (hn : nthread < 4294967296) (hs : size + nthread < 9223372036854775808) (hr : size < mem.length)
+    (hg : GoodText f t) (rss : List (List Row))
+    (hl : (eolSplit t).mapM (rows f conv) = .ok rss) (ha : AgreeRows rss.flatten) :
+    ((fillData (f.parseBlock Fixes.current conv) mem size nthread).bind blocksOf).map List.flatten = .ok rss.flatten ∧
+    rows f conv t = .ok rss.flatten := by
+  obtain ⟨gR, gI, gQ, gC, hL⟩ := hL
+  have hlen : size = t.length := by have := hAt.2; omega
+  cases f with
+  | libsvm iw mode =>
+    rw [rows_libsvm] at hl ⊢
+    have hp : (Format.libsvm iw mode).parseBlock Fixes.current conv = svmBlock Fixes.repaired conv iw mode := by
+      funext m a b; simp [Format.parseBlock, C11_source_is_repaired]
+    rw [hp]
+    exact ⟨fillData_rows (svm_blockFormat hL iw mode) mem size nthread t hAt hT hpos h1 hn hs hr (fun _ _ => rfl) rss hl ha,
+      (svm_lineFormat hL iw mode).concat_of_lines t (fun _ _ => rfl) (by omega) rss hl ha⟩
+  | libfm iw mode =>
+    rw [rows_libfm] at hl ⊢
+    have hp : (Format.libfm iw mode).parseBlock Fixes.current conv = fmBlock Fixes.repaired conv iw mode := by
+      funext m a b; simp [Format.parseBlock, C11_source_is_repaired]
+    rw [hp]
+    exact ⟨fillData_rows (fm_blockFormat hL iw mode) mem size nthread t hAt hT hpos h1 hn hs hr (fun _ _ => rfl) rss hl ha,
+      (fm_lineFormat hL iw mode).concat_of_lines t (fun _ _ => rfl) (by omega) rss hl ha⟩
+  | csv prm =>
+    rw [rows_csv] at hl ⊢
+    have hp : (Format.csv prm).parseBlock Fixes.current conv = csvBlock Fixes.repaired conv prm := by
+      funext m a b; simp [Format.parseBlock, C11_source_is_repaired]
+    rw [hp]
+    have hg' : ∀ x ∈ t, nonNulB x = true := fun x hx => by simpa [nonNulB] using hg x hx
+    exact ⟨fillData_rows (csv_blockFormat hL prm) mem size nthread t hAt hT hpos h1 hn hs hr hg' rss hl ha,
+      (csv_lineFormat hL prm).concat_of_lines t hg' (by omega) rss hl ha⟩
+
 /-! ### bytes after the block -/
 
 /-- the rows of a block do not depend on the memory around it, as long as the byte after the block is a
 NUL or an end-of-line byte (what FillData's slices and the InputSplit chunks guarantee) -/
 theorem C11_trailing_bytes_irrelevant_libsvm (iw mode : Nat) (conv : Conv) (hL : conv.Local)
     (mem mem' : Bytes) (a b a' b' : Nat) (t : Bytes) (hb : t.length + 2 < 2 ^ 64)
-    (h : At mem a b t) (h' : At mem' a' b' t) (hT : Term mem b) (hT' : Term mem' b') :
+    (h : At mem a b t) (h' : At mem' a' b' t) (hT : TermOr mem b t) (hT' : TermOr mem' b' t) :
     rowsAt (.libsvm iw mode) conv mem a b = rowsAt (.libsvm iw mode) conv mem' a' b' := by
   obtain ⟨gR, gI, gQ, gC, hL⟩ := hL
   have hc := codeLines_length t
@@ -210,7 +288,7 @@ theorem C11_trailing_bytes_irrelevant_libsvm (iw mode : Nat) (conv : Conv) (hL :
 
 theorem C11_trailing_bytes_irrelevant_libfm (iw mode : Nat) (conv : Conv) (hL : conv.Local)
     (mem mem' : Bytes) (a b a' b' : Nat) (t : Bytes) (hb : t.length + 2 < 2 ^ 64)
-    (h : At mem a b t) (h' : At mem' a' b' t) (hT : Term mem b) (hT' : Term mem' b') :
+    (h : At mem a b t) (h' : At mem' a' b' t) (hT : TermOr mem b t) (hT' : TermOr mem' b' t) :
     rowsAt (.libfm iw mode) conv mem a b = rowsAt (.libfm iw mode) conv mem' a' b' := by
   obtain ⟨gR, gI, gQ, gC, hL⟩ := hL
   have hc := codeLines_length t
@@ -292,7 +370,7 @@ theorem C11_blank_lines_libfm (iw mode : Nat) (conv : Conv) (hL : conv.Local)
 or an end-of-line byte; NUL-free block) -/
 theorem C11_trailing_bytes_irrelevant_csv (prm : CsvParam) (conv : Conv) (hL : conv.Local)
     (mem mem' : Bytes) (a b a' b' : Nat) (t : Bytes) (hb : t.length + 2 < 2 ^ 64) (hn : ∀ x ∈ t, x ≠ 0)
-    (h : At mem a b t) (h' : At mem' a' b' t) (hT : Term mem b) (hT' : Term mem' b')
+    (h : At mem a b t) (h' : At mem' a' b' t) (hT : TermOr mem b t) (hT' : TermOr mem' b' t)
     (hr : b < mem.length) (hr' : b' < mem'.length) (hb2 : b < 2 ^ 64) (hb2' : b' < 2 ^ 64) :
     rowsAt (.csv prm) conv mem a b = rowsAt (.csv prm) conv mem' a' b' := by
   obtain ⟨gR, gI, gQ, gC, hL⟩ := hL
